@@ -155,4 +155,32 @@ def runHM (m : HM V Unit) (maps : Nat → Nat → Option (List (V × Nat))) (nex
   (r.1, r.2.maps, r.2.nextIndex, r.2.out, r.2.outer)
 
 end HM
+/-! ## plain (non-multiplexed) operators written by hand in rxsci: `on_next(i)` / `on_completed()` closures over `nonlocal`
+variables of `on_subscribe` -/
+
+structure PSt (V : Type) where
+  /-- the `nonlocal` variables of the closure, numbered in the order `on_subscribe` initialises them -/
+  vars : Nat → V
+  /-- `observer.on_next(v)` so far, oldest first -/
+  out : List V := []
+  /-- `observer.on_completed()` was called -/
+  completed : Bool := false
+
+/-- an exception escaping `on_next` / `on_completed` is RxPY's business (it ends the subscription with `on_error`): here it is
+the `Except` result, with the effects performed before it kept -/
+abbrev PM (V : Type) := ExceptT Err (StateM (PSt V))
+
+namespace PM
+variable {V : Type}
+def getVar (k : Nat) : PM V V := do return (← get).vars k
+def setVar (k : Nat) (v : V) : PM V Unit :=
+  modify fun s => { s with vars := fun j => if j = k then v else s.vars j }
+def emit (v : V) : PM V Unit := modify fun s => { s with out := s.out ++ [v] }
+def complete : PM V Unit := modify fun s => { s with completed := true }
+/-- run from given variable values and an empty output -/
+def run (m : PM V Unit) (vars : Nat → V) : Except Err Unit × PSt V := (ExceptT.run m).run { vars := vars }
+/-- the variable valuation `on_subscribe` starts from -/
+def initVars [Inhabited V] (l : List V) : Nat → V := fun k => l.getD k default
+end PM
+
 end Rx
